@@ -15,6 +15,7 @@ vlib.universe('cyc',3,maxe=9,k=2,w=2,l=1,cap=6)
 vlib.universe('cyc',4,maxe=6,k=2,w=2,l=1,cap=4)
 vlib.universe('dag',4,k=2,w=3,cap=12,zero=True)
 vlib.universe('cyc',3,maxe=9,k=2,w=2,l=1,cap=6,zero=True)
+vlib.universe('motif',6,maxe=0,k=2,w=2,l=1,cap=6)
 vlib.euler_universe(3,9,3,400)
 vlib.euler_universe(4,6,2,24)
 "
